@@ -161,6 +161,7 @@ var ambDaemon bool
 // ambReset is called at the start of every run: children left over from the
 // previous run are unwound, the PRNG restarts from the scenario's seed.
 func ambReset(seed uint64) {
+	indexReg = indexReg[:0]
 	xsimrt.ResetOnceTable()
 	xsimrt.ResetWGTable()
 	xsimrt.ResetChanTable()
